@@ -90,6 +90,7 @@ func workerMain(args []string) {
 	var logDigest uint64
 	nruns := 0
 	budgetFails := 0
+	failedEvals := 0
 	var progress int64 = time.Now().Unix()
 	var current atomic.Value
 	go func() {
@@ -104,8 +105,10 @@ func workerMain(args []string) {
 		}
 	}()
 	for i := *worker; i < *runs; i += *workers {
-		if budgetFails >= 2 || len(st.Failures) >= 6 {
-			// every further hang costs a full step budget; the verdict is already a violation
+		if budgetFails >= 2 || len(st.Failures) >= 6 || failedEvals >= 60 {
+			// every further hang costs a full step budget, and state that leaks
+			// from one call to the next (a poisoned pool) can make every later
+			// evaluation slower and slower; the verdict is already a violation
 			break
 		}
 		nruns++
@@ -121,6 +124,7 @@ func workerMain(args []string) {
 			verdict := "ok"
 			if f != nil {
 				verdict = f.Check
+				failedEvals++
 				if f.Check == "step-budget" || strings.Contains(f.Observed, "STEP-BUDGET") {
 					budgetFails++
 				}
